@@ -138,7 +138,9 @@ class _VersionMatch(GenericEquality, restriction.base):
 
     # TODO: cached_hash?
     def __hash__(self):
-        return hash((self.droprev, self.ver, self.rev, self.negate, self.vals))
+        # hash what __eq__ compares: the effective operator set (negated "<" equals ">=") and the
+        # revision as a number (None, "" and 0 are the same revision)
+        return hash((self.droprev, self.ver, int(self.rev or 0), self._convert_ops(self)))
 
 
 class VersionMatch(packages.PackageRestriction):
